@@ -1,0 +1,17 @@
+//! Verification hook for property C20 (read-only): the private 256-colour tables as exact f32 bit
+//! patterns, the private `nearest` search, and the private `color_sgr_encode` parameter writer.
+
+/// `CUBE` as the compiler sees it (f32 bit patterns).
+pub fn cube_bits() -> Vec<u32> {
+    super::CUBE.iter().map(|v| v.to_bits()).collect()
+}
+
+/// `GREYS` as the compiler sees it (f32 bit patterns).
+pub fn greys_bits() -> Vec<u32> {
+    super::GREYS.iter().map(|v| v.to_bits()).collect()
+}
+
+/// The private `nearest` on caller supplied data.
+pub fn nearest(v: f32, vs: &[f32]) -> usize {
+    super::nearest(v, vs)
+}
